@@ -178,6 +178,11 @@ type FuncVC struct {
 	params     map[string]Val
 	streamAppend func(r, d, x Term, xv ssa.Value, pos token.Pos)
 	inGlobalInv bool
+	bindingEscape bool
+	closureOnly map[*ssa.Alloc]bool
+	inCall bool
+	curCallHasFuncArg bool
+	closureBindings []Val
 	inferred map[*ssa.BasicBlock]*LoopSpec
 	inferCounters bool
 	safetyOnly bool
